@@ -23,6 +23,11 @@ META = {
 
 def run(eng, ctx):
     m = SH.ReaderModel(eng)
+    # "decode them exactly as the same payload with a right checksum": the checksum bytes reach nothing but the CRC test (C08-D4, shared)
+    from .C08 import trailer_unused
+
+    trailer_unused(eng, ctx, "C08.D4")
+    SH.assembler_result(eng, ctx, "C01.D8", m)
     opts = SH.reader_option_fields(eng)
     vf, pf = opts.get("validate"), opts.get("parsed")
     parse = eng.repo.func(f"{eng.reader_cls}.parse")
